@@ -50,6 +50,8 @@ structure Cfg where
   closeCatch : List String := ["OSError"]   -- its except clause (the handler body is `pass`)
   usedSetBeforeRun : Bool := true           -- `InferenceStateSubprocess.__getattr__.wrapper`: `self._used = True`
                                             -- stands BEFORE `self._compiled_subprocess.run(...)`
+  listenCatch : List String := ["Exception"] -- `Listener.listen`: the except clause around `self._run(*payload)`
+                                            -- (its handler replies `(True, traceback, e)`; the helper lives)
 deriving Repr
 
 /-- CPython class hierarchy of the exception classes that occur (how an `except` clause matches) -/
@@ -62,11 +64,26 @@ def mro (cls : String) : List String :=
   else if cls = "InternalError" then ["InternalError", "_JediError", "Exception", "BaseException"]
   else if cls = "KeyError" then ["KeyError", "LookupError", "Exception", "BaseException"]
   else if cls = "KeyboardInterrupt" then ["KeyboardInterrupt", "BaseException"]
+  else if cls = "SystemExit" then ["SystemExit", "BaseException"]
+  else if cls = "GeneratorExit" then ["GeneratorExit", "BaseException"]
+  else if cls = "CancelledError" then ["CancelledError", "asyncio.CancelledError", "BaseException"]
+  else if cls = "VerifFatal" then ["VerifFatal", "BaseException"]   -- a direct subclass of BaseException
+  else if cls = "BaseException" then ["BaseException"]
   else [cls, "Exception", "BaseException"]
 
 /-- does `except <clause>:` catch an exception of class `cls` -/
 def caught (cls : String) (clause : List String) : Bool :=
   (mro cls).any fun c => clause.contains c
+
+/-- CPython: is `cls` a subclass of `Exception` -/
+def isException (cls : String) : Bool := caught cls ["Exception"]
+
+/-- "the helper raises": `self._run(*payload)` of `Listener.listen` raises an exception of class `cls`
+while it serves a request.  The except clause around it decides: caught = the helper replies
+`(True, traceback, e)` and lives (`Fault.raises`), not caught = the exception leaves the request loop
+and the interpreter of the helper terminates without a reply (`Fault.raisesFatal`). -/
+def listenFault (cfg : Cfg) (cls : String) : Fault :=
+  if caught cls cfg.listenCatch then .raises cls else .raisesFatal
 
 inductive Out
   | ok
